@@ -36,7 +36,7 @@ const (
 	infinity  = uint64(16)
 	nackNoRte = uint64(150)
 
-	minHopDelay = time.Millisecond
+	minHopDelay = 5 * time.Millisecond
 )
 
 // routerNames: deliberately of different lengths; the order of their hashes (which the
@@ -262,7 +262,7 @@ func (nw *network) draw(flow string) uint64 {
 	return splitmix(splitmix(nw.sched.Seed^hashStr(flow)) + k)
 }
 
-// delay of one link hop: 1 ms (so that a request/response loop always advances virtual
+// delay of one link hop: 5 ms (so that a request/response loop always advances virtual
 // time) plus the generated per-packet jitter.
 func (nw *network) delay(kind string, from, to int) time.Duration {
 	if nw.sched.MaxDelay <= 0 {
